@@ -19,7 +19,8 @@ import (
 //verif:stub logfs-osfile (*os.File).WriteAt vOSWriteAt
 //verif:stub logfs-osfile (*os.File).Sync vOSSync
 //verif:stub logfs-osfile (*os.File).Close vOSClose
-//verif:stub logfs raft/log.segments vSegments
+//verif:stub logfs-glob path/filepath.Glob vGlob
+//verif:stub logfs-segments raft/log.segments vSegments
 //verif:stub logfs os.Remove vRemove
 //verif:stub logfs raft/mmap.OpenFile vMmapOpen
 //verif:stub logfs (*raft/mmap.File).Sync vMmapSync
@@ -191,6 +192,19 @@ func vPrevOf(name string) uint64 {
 		mul *= 10
 	}
 	return v
+}
+
+// vGlob: what filepath.Glob(dir/*.log) lists: the existing "*.log" names, deliberately NOT in index order (newest
+// first), so that the real segments() has to parse and sort them.
+func vGlob(pattern string) ([]string, error) {
+	var names []string
+	for i := len(vOrder) - 1; i >= 0; i-- {
+		name := vOrder[i]
+		if f := vFS[name]; f != nil && f.exists && len(name) > 4 && name[len(name)-4:] == ".log" {
+			names = append(names, name)
+		}
+	}
+	return names, nil
 }
 
 func vSegments(dir string) ([]uint64, error) {
